@@ -166,8 +166,9 @@ class FnModel(object):
             feats.add("collision")
         if not self.wild:
             return ERROR, (idx, num)
-        for _pass in range(len(self.taken) + 3):
+        for _pass in range(len(self.taken) + 4):
             formed_numbered = False
+            ns_changed = False
             for alt in self.wild:
                 r = self.expand(alt, cur, num)
                 if r is None:
@@ -177,12 +178,13 @@ class FnModel(object):
                 if numbered:
                     num += 1
                     formed_numbered = True
-                if policy == "reset":
+                if policy == "reset" and cur is not self.g:
                     cur = self.g
+                    ns_changed = True       # the next pass sees other values
                 if name not in self.taken:
                     return name, (idx, num)
                 feats.add("collision")
-            if not formed_numbered:
+            if not formed_numbered and not ns_changed:
                 return ERROR, (idx, num)
         return ERROR, (idx, num)
 
